@@ -7,7 +7,7 @@
    model/ReaderFlow.v: every primitive may succeed or raise any class of its raise-set, every branch may be
    taken, every loop may run any number of times - so every document is covered) in scenario sc and mode m
    (true = failsafe) ends with outcome o. *)
-From Coq Require Import List Bool.
+From Coq Require Import List Bool NArith ZArith.
 From Basyx Require Import model.ReaderFlow model.ReaderWalk proofs.ReaderFlowProofs proofs.ReaderFlowTables
   proofs.ReaderWalkProofs gen.Gen_ReaderFlow.
 Import ListNotations.
@@ -56,7 +56,7 @@ Proof. exact conflict_failsafe. Qed.
 (* Non-vacuity: the semantics does produce exceptions, strict mode can raise KeyError, TypeError and
    ValueError, the conflict scenario raises KeyError. *)
 Example C09_semantics_raises :
-  exec [SPrim 0 [KeyError] EnvNone] scn_document true None (SCall 0) (OExc KeyError).
+  exec [SPrim 0%N [KeyError] EnvNone] scn_document true None (SCall 0) (OExc KeyError).
 Proof. exact exec_example_raises. Qed.
 Example C09_strict_can_raise :
   map (fun e => existsb (fun f => mem e (nth f T_doc_st [])) entries) [KeyError; TypeError; ValueError]
@@ -65,33 +65,39 @@ Proof. exact strict_rows_nonempty. Qed.
 Example C09_conflict_can_raise : mem KeyError (nth entry_json_read_aas_json_file_into T_conf_fs []) = true.
 Proof. exact conflict_row_nonempty. Qed.
 
-(* ---- the top-level walk (model/ReaderWalk.v): items are decoded independently *)
+(* ---- the top-level walk (model/ReaderWalk.v: read_aas_json_file_into / read_aas_xml_file_into after parsing),
+   over documents abstracted to top-level lists of independently decoded items *)
 
-(* Failsafe never fails on the walk level and strict either fails with KeyError/TypeError or returns
-   exactly what failsafe returns. *)
-Theorem C09_walk_failsafe_total : forall fmt d st, exists r, walk fmt true d st = WOk r.
+(* Failsafe never fails on the walk level, provided no identifier conflict with the target store can raise
+   (replace_existing or ignore_existing is set, or the store is empty as in read_aas_*_file). *)
+Theorem C09_walk_failsafe_total : forall f fl d st, conflict_free fl st = true ->
+  exists r, walk f true fl d st = ROk r.
 Proof. exact walk_failsafe_total. Qed.
 
-Theorem C09_walk_strict_refines : forall fmt d st r,
-  walk fmt false d st = WOk r -> walk fmt true d st = WOk r.
+(* Strict either returns exactly what failsafe returns ... *)
+Theorem C09_walk_strict_refines : forall f fl d st r,
+  walk f false fl d st = ROk r -> walk f true fl d st = ROk r.
 Proof. exact walk_strict_refines. Qed.
 
-Theorem C09_walk_strict_errors : forall fmt d st e,
-  walk fmt false d st = WErr e -> e = KeyError \/ e = TypeError.
-Proof. exact walk_strict_errors. Qed.
+(* ... or raises KeyError (duplicate / existing identifier, XML: foreign tag), TypeError (wrong list, non-object,
+   unknown XML list) or the class raised by the construction of a broken object of the document.  The same
+   holds for the one failsafe error (existing identifier, no flag set). *)
+Theorem C09_walk_errors : forall f m fl d st e,
+  walk f m fl d st = RErr e ->
+  e = KeyError \/ e = TypeError \/ exists it, In it (all_items d) /\ strict_exn it = Some e.
+Proof. exact walk_errors. Qed.
 
-(* Isolation: replacing one item of the document by anything (damage) does not change whether and how any
-   other item with a different identifier arrives in the result. *)
-Theorem C09_isolation : forall fmt d d' st k,
-  same_except_one d d' -> undamaged_id d d' k ->
-  lookup_result fmt d st k = lookup_result fmt d' st k.
+(* Isolation: d' is d with any number of items replaced by damaged versions.  If neither the original nor the
+   damaged version of a replaced item carries identifier k, the failsafe read returns for k exactly what it
+   returns for the undamaged document (present with the same content, or absent). *)
+Theorem C09_isolation : forall f fl d d' st k, conflict_free fl st = true -> doc_rel k d d' ->
+  lookup_result f fl d st k = lookup_result f fl d' st k.
 Proof. exact walk_isolation. Qed.
 
-(* every identifiable of the document that is well placed, decodes, and has an identifier that occurs once
-   is in the failsafe result, unchanged *)
-Theorem C09_undamaged_kept : forall fmt d st k payload,
-  occurs_once_ok fmt d k payload -> lookup_result fmt d st k = Some payload.
-Proof. exact walk_undamaged_kept. Qed.
-
+(* Non-vacuity: a document with a broken object, a duplicate identifier, an object in the wrong list, a
+   non-object and an unknown list; the expected results of all four readers; and a damaged version of it that is
+   related to it by [doc_rel 2]. *)
 Example C09_walk_example : walk_example_ok = true.
 Proof. exact walk_example_proof. Qed.
+Example C09_isolation_example : doc_rel 2 ex_doc ex_doc_damaged.
+Proof. exact ex_doc_rel. Qed.
